@@ -62,13 +62,19 @@ func parseArgs(s string) (map[string]string, error) {
 	argMap := map[string]string{}
 	for _, arg := range strings.FieldsFunc(s, isSMTPSpace) {
 		m := strings.Split(arg, "=")
-		switch len(m) {
-		case 2:
-			argMap[strings.ToUpper(m[0])] = m[1]
-		case 1:
-			argMap[strings.ToUpper(m[0])] = ""
-		default:
+		if len(m) > 2 {
 			return nil, fmt.Errorf("failed to parse arg string: %q", arg)
+		}
+		key := strings.ToUpper(m[0])
+		if _, ok := argMap[key]; ok {
+			// The later one would silently replace the earlier one, which
+			// would then not even be looked at.
+			return nil, fmt.Errorf("duplicate parameter: %q", arg)
+		}
+		if len(m) == 2 {
+			argMap[key] = m[1]
+		} else {
+			argMap[key] = ""
 		}
 	}
 	return argMap, nil
